@@ -77,10 +77,14 @@ void realizePositions(const FmmCase& c, bool dyadic, int dist, const std::vector
             case 2: t = dyadic ? 0.0L : 1.0L / 1026.0L; break;
             case 3: cc[d] = n - 1; t = 1.0L; break;
             case 4: t = dyadic ? 1.0L - 1.0L / 1024.0L : 1025.0L / 1026.0L; break;
+            case 6: t = dyadic ? 1.0L : 1025.0L / 1026.0L; break;       // dyadic: the representable value next below the upper face of the cell (set below)
+            case 7: t = dyadic ? 0.0L : 1.0L / 1026.0L; break;          // dyadic: the representable value next above the lower face of the cell
             }
             if(interiorOnly){ t = 0.07L + 0.86L * fr; if(std::fabs((double)(t - 0.5L)) < 0.03) t += 0.06L; }
             long double x = (long double)g.corner[d] + ((long double)cc[d] + t) * (long double)g.leafw[d];
             Real xr = Real(x);
+            if(dyadic && !interiorOnly && k == 6) xr = std::nextafter(xr, -std::numeric_limits<Real>::infinity());
+            if(dyadic && !interiorOnly && k == 7) xr = std::nextafter(xr, std::numeric_limits<Real>::infinity());
             // documented precondition, evaluated as the library will evaluate it
             for(int it = 0 ; it < 8 ; ++it){
                 volatile Real rel = xr - g.corner[d];
@@ -118,7 +122,7 @@ std::vector<PartSpec> genSpecs(int maxN){
     const double scale = double(maxN) / double(kNominalSize);
     auto specGen = gen::map(gen::tuple(gen::resize(kNominalSize, gen::inRange(0, 65536)), gen::resize(kNominalSize, gen::inRange(0, 65536)),
                                        gen::resize(kNominalSize, gen::inRange(0, 65536)), gen::resize(kNominalSize, gen::inRange(0, 65536)),
-                                       gen::resize(kNominalSize, gen::inRange(0, 6)), gen::resize(kNominalSize, gen::inRange(0, 16)),
+                                       gen::resize(kNominalSize, gen::inRange(0, 8)), gen::resize(kNominalSize, gen::inRange(0, 16)),
                                        gen::resize(kNominalSize, gen::inRange(0, 1 << 20))),
                             [](const std::tuple<int,int,int,int,int,int,int>& t){
         PartSpec s; s.r[0] = std::get<0>(t); s.r[1] = std::get<1>(t); s.r[2] = std::get<2>(t); s.r[3] = std::get<3>(t);
